@@ -206,9 +206,9 @@ NEEDS.update({
  "r8-C18-v1": "cookie escaping ranges over runes: cookie value that is not valid UTF-8",
  "r8-C18-v2": "integers parsed with base 0: 010, 0x10, 0b101, 1_000",
 })
-for i, (c, what) in enumerate([("16996b9", "C02"), ("b1ad9ca", "C02"), ("dc445d8", "C08"), ("50e6683", "C12"), ("8943820", "C09"), ("e71688c", "C10"), ("c547909", "C08"), ("4ac932e", "C09"), ("356c62b", "C03"), ("f4314d8", "C14"), ("9fed95b", "C11"), ("788edcd", "C10"), ("be19d8a", "C17"), ("90f334b", "C15")], 1):
+for i, (c, what) in enumerate([("16996b9", "C02"), ("b1ad9ca", "C02"), ("dc445d8", "C08"), ("50e6683", "C12"), ("8943820", "C09"), ("e71688c", "C10"), ("c547909", "C08"), ("4ac932e", "C09"), ("356c62b", "C03"), ("f4314d8", "C14"), ("9fed95b", "C11"), ("788edcd", "C10"), ("be19d8a", "C17"), ("90f334b", "C15"), ("fa20b4a", "C18"), ("c45d43e", "C16"), ("2241a41", "C09"), ("249fdcc", "C11")], 1):
     NEEDS["rev-F%02d" % i] = "reverse of fix commit %s: the defect as it was in the pinned tree (see known_findings.txt and DESIGN.md section 6)" % c
-REVPROP = {"rev-F01": "C02", "rev-F02": "C02", "rev-F03": "C08", "rev-F04": "C12", "rev-F05": "C09", "rev-F06": "C10", "rev-F07": "C08", "rev-F08": "C09", "rev-F09": "C03", "rev-F10": "C14", "rev-F11": "C11", "rev-F12": "C10", "rev-F13": "C17", "rev-F14": "C15"}
+REVPROP = {"rev-F01": "C02", "rev-F02": "C02", "rev-F03": "C08", "rev-F04": "C12", "rev-F05": "C09", "rev-F06": "C10", "rev-F07": "C08", "rev-F08": "C09", "rev-F09": "C03", "rev-F10": "C14", "rev-F11": "C11", "rev-F12": "C10", "rev-F13": "C17", "rev-F14": "C15", "rev-F15": "C18", "rev-F16": "C16", "rev-F17": "C09", "rev-F18": "C11"}
 
 for d in sorted(glob.glob(os.path.join(VERIF, "seeded", "*"))):
     name = os.path.basename(d)
